@@ -566,6 +566,23 @@ def r19_5(rep: Report) -> None:
         raise AnalysisError('to_iso_datetime: no isoformat()/strftime() rendering found')
 
 
+def lift_into(rep: Report, rid: str, rules: tuple[str, ...], what: str) -> None:
+    """other properties rest on the same formatter / parser clauses (C05: every xs:dateTime and xs:duration
+    attribute is lexically valid; C08: an explicit start names the instant it was given as): run this
+    property's rules on the same tree and report their unlisted findings under the other property's rule id"""
+    from ..core import load_known, match_known
+    sub = Report('C19', rep.repo, 'quick')
+    analyse(sub)
+    known, _ = load_known('C19')
+    hits = [f for f in sub.findings if f.rule in rules and match_known(f, known) is None]
+    n_inst = sum(sub.rules[r].instances for r in rules if r in sub.rules)
+    if not hits:
+        rep.ok(rid, 'dashlive/utils/date_time.py', what, f'{", ".join(rules)} of C19 hold ({n_inst} instance(s))')
+    for f in hits:
+        import types
+        rep.fail(rid, f.construct, f'{f.rule}: {f.key}', f.message, types.SimpleNamespace(lineno=f.line), file=f.file)
+
+
 def analyse(rep: Report) -> None:
     rep.explanation = (
         'Interval abstract interpretation (zone domain, path-sensitive on if tests) of '
